@@ -295,7 +295,7 @@ class CouchDBObjectStore(model.AbstractObjectStore):
 
         try:
             data = CouchDBBackend.do_request(
-                "{}/{}/{}".format(self.url, self.database_name, urllib.parse.quote(couchdb_id, safe='')))
+                "{}/{}/{}".format(self.url, self.database_name, self._transform_id(couchdb_id)))
         except CouchDBServerError as e:
             if e.code == 404:
                 raise KeyError("No Identifiable with couchdb-id {} found in CouchDB database".format(couchdb_id)) from e
@@ -307,7 +307,7 @@ class CouchDBObjectStore(model.AbstractObjectStore):
             raise CouchDBResponseError("The CouchDB document with id {} does not contain an identifiable AAS object."
                                        .format(couchdb_id))
         self.generate_source(obj)  # Generate the source parameter of this object
-        set_couchdb_revision("{}/{}/{}".format(self.url, self.database_name, urllib.parse.quote(couchdb_id, safe='')),
+        set_couchdb_revision("{}/{}/{}".format(self.url, self.database_name, self._transform_id(couchdb_id)),
                              data["_rev"])
 
         # If we still have a local replication of that object (since it is referenced from anywhere else), update that
@@ -497,6 +497,10 @@ class CouchDBObjectStore(model.AbstractObjectStore):
         """
         if url_quote:
             identifier = urllib.parse.quote(identifier, safe='')
+            if identifier in ('.', '..'):
+                # A path segment "." or ".." would be removed from the request URL as a dot segment (RFC 3986,
+                # section 5.2.4), so that the request would address the database or the server instead of a document
+                identifier = identifier.replace('.', '%2E')
         return identifier
 
     def generate_source(self, identifiable: model.Identifiable):
